@@ -157,6 +157,151 @@ def c01(out):
     out.add("transitions", out.cov.get("trace_lines_validated", 0))
 
 
+# --------------------------------------------------------------------------- family O (captured ops)
+
+def lcs_len(a, b):
+    prev = [0] * (len(b) + 1)
+    for x in a:
+        cur = [0]
+        for j, y in enumerate(b):
+            cur.append(prev[j] + 1 if x == y else max(prev[j + 1], cur[j]))
+        prev = cur
+    return prev[-1]
+
+
+def scan_records(trace):
+    with open(trace) as f:
+        for line in f:
+            yield json.loads(line)
+
+
+def ops_check(out, clauses, nontrivial, what, known_clause=None, extra=()):
+    """Run the captured-ops driver and judge the given clauses."""
+    trace = drive(out, "ops", extra=extra)
+    n = nt = 0
+    seen = set()
+    samples = []
+    for r in scan_records(trace):
+        n += 1
+        key = (r["alg"], tuple(r["old"]), tuple(r["new"]), r["os"], r["oe"], r["ns"], r["ne"], r["entry"], r["fuel"])
+        if key in seen:
+            continue
+        if nontrivial(r):
+            seen.add(key)
+            nt += 1
+            if len(samples) < 3:
+                samples.append({k: r[k] for k in ("alg", "entry", "old", "new", "os", "oe", "ns", "ne", "fuel", "ops")})
+    out.add("evaluations", n)
+    out.add("distinct_nontrivial", nt)
+    out.add("rule", what)
+    out.add("samples", samples)
+    res = core.validate("TraceOps", trace, out.prop)
+    out.add("trace_lines_validated", res["lines"])
+    out.add("traces_validated_against_impl", n)
+    out.add("states", res["states"])
+    out.add("transitions", res["lines"])
+    by_case = {}
+    for c, cl, ln in res["rejects"]:
+        by_case.setdefault(c, set()).update(cl)
+    viol, known = [], []
+    for c, cl in sorted(by_case.items()):
+        rel = cl & clauses
+        if known_clause and known_clause[0] in rel and known_clause[1] not in cl:
+            # rejected as shipped, accepted with the swap-repair switch on
+            known.append(c)
+            rel = rel - {known_clause[0]}
+        if rel:
+            viol.append((c, sorted(rel), 0))
+    if viol:
+        paths, bc = core.write_replays(out.prop, trace, viol, dict(family="ops"), cap=8)
+        for c in sorted(bc)[:8]:
+            out.violation(f"ops case {c}: clause(s) {sorted(bc[c])}", paths.get(c, "n/a"))
+        out.add("rejected_cases", len(bc))
+    return trace, known
+
+
+def nontriv_ops_basic(r):
+    return r["oe"] > r["os"] and r["ne"] > r["ns"] and len(r["ops"]) >= 2
+
+
+@prop("C02")
+def c02(out):
+    ops_check(out, {"valid", "apply", "identical", "ratio", "panic"},
+              lambda r: nontriv_ops_basic(r) and r.get("cc", False),
+              "one evaluation = one capture_diff*/TextDiff::ops call (all algorithms, slices / ranges with a panicking "
+              "window lookup / TextDiff, deadline none / never / every expiry index) judged by TLC with Ops!ValidOps, "
+              "ApplyOk, identical-input and ratio clauses; non-trivial = both ranges non-empty, >=2 ops and the compaction "
+              "stage changed the raw script; distinct by (alg, sequences, ranges, entry point, fuel)")
+
+
+@prop("C09")
+def c09(out):
+    ops_check(out, {"normal"},
+              lambda r: nontriv_ops_basic(r) and r.get("cc", False),
+              "captured op lists judged by TLC with Ops!NormalForm (no empty op, strict Equal/non-Equal alternation, "
+              "insertion before an Equal sits at its latest position); non-trivial = compaction merged or slid something; "
+              "distinct by (alg, sequences, ranges, entry point, fuel)")
+
+
+@prop("C11")
+def c11(out):
+    trace, known = ops_check(out, {"exact", "exact_rep"},
+                             lambda r: nontriv_ops_basic(r) and (r.get("swaps", 0) > 0 or r.get("cc", False)),
+                             "captured op lists judged by TLC with Ops!ExactPositions (both indices of every op equal the "
+                             "items consumed so far); every case is run twice, as shipped and with the cfg(similar_verif) "
+                             "swap-repair switch on, for known-finding attribution; non-trivial = a swap arm fired or the "
+                             "compaction changed the script",
+                             known_clause=("exact", "exact_rep"))
+    if known:
+        ex = core.read_cases(trace, known[:1]).get(known[0], ["?"])[0]
+        r = json.loads(ex)
+        out.known.append(f"KF-1 compact.rs swap arms leave the carried index of the swapped Delete/Insert stale "
+                         f"({len(known)} cases rejected as shipped and accepted with the swap repair on, e.g. "
+                         f"alg={r['alg']} old={r['old'][r['os']:r['oe']]} new={r['new'][r['ns']:r['ne']]} ops={r['ops']})")
+        out.add("known_finding_hits", len(known))
+
+
+@prop("C03")
+def c03(out):
+    def nt(r):
+        if r["alg"] == "patience" or r["fuel"] != -2:
+            return False
+        a, b = r["old"][r["os"]:r["oe"]], r["new"][r["ns"]:r["ne"]]
+        L = lcs_len(a, b)
+        return 0 < L < min(len(a), len(b))
+    ops_check(out, {"minimal", "ratio_formula"}, nt,
+              "captured ops (Myers, LCS, no deadline): Cost = N+M-2*LcsLen, EqualTotal = LcsLen and ratio = 2L/(N+M), with "
+              "LcsLen computed by TLC from an independent fold (Oracles!LcsLen); raw callback streams: deleted+inserted = "
+              "N+M-2*LcsLen; non-trivial = 0 < L < min(N,M); distinct by (alg, sequences, ranges, entry point)",
+              extra=["--deadline", "0"])
+    trace = drive(out, "c01")
+    n = sum(1 for st, evs, ret in scan_hook_cases(trace) if evs is not None and st["alg"] != "patience")
+    out.add("evaluations", n)
+    judge(out, "c01", trace, "TraceHook", {"minimal"})
+    out.add("traces_validated_against_impl", n)
+
+
+@prop("C15")
+def c15(out):
+    def nt(r):
+        if r["alg"] != "patience" or r["fuel"] != -2:
+            return False
+        a, b = r["old"][r["os"]:r["oe"]], r["new"][r["ns"]:r["ne"]]
+        u = [x for x in a if a.count(x) == 1 and b.count(x) == 1]
+        v = [x for x in b if x in u]
+        return len(u) >= 2 and u != v and lcs_len(u, v) >= 2
+    ops_check(out, {"anchors"}, nt,
+              "Patience without deadline, captured ops and raw streams: number of common-unique items covered by Equal "
+              "segments >= K, K = LcsLen of the two lists of common-unique items (Oracles!AnchorOptimum, evaluated by TLC); "
+              "non-trivial = K >= 2 and the common-unique items are not in the same order on both sides",
+              extra=["--deadline", "0"])
+    trace = drive(out, "c01")
+    n = sum(1 for st, evs, ret in scan_hook_cases(trace) if evs is not None and st["alg"] == "patience")
+    out.add("evaluations", n)
+    judge(out, "c01", trace, "TraceHook", {"anchors"})
+    out.add("traces_validated_against_impl", n)
+
+
 # --------------------------------------------------------------------------- setup / selftest / replay
 
 def setup():
